@@ -595,24 +595,61 @@ fn gen_light(w: &World, rng: &mut Rng) -> Vec<Vec<u8>> {
     v.push(msg(packed::GetLastState::new_builder().subscribe(packed::Bool::new_builder().set([(*rng.pick(&[0u8, 1, 2, 0xff])).into()]).build()).build().into()));
     // GetLastStateProof: boundaries of every numeric field
     for _ in 0..3 {
-        let last_hash = pick_hash(rng);
-        let start_hash = pick_hash(rng);
-        let start_number = *rng.pick(&[0u64, 0, 1, 2, tip - 1, tip, tip + 1, tip + 2, 1 << 32, u64::MAX - 1, u64::MAX]);
-        let last_n = *rng.pick(&[0u64, 1, 2, 5, tip, 499, 500, 501, 1 << 31, (1 << 63) - 1, 1 << 63, u64::MAX]);
-        let nd = *rng.pick(&[0usize, 0, 1, 2, 3, 999, 1000, 1001]);
-        let base = *rng.pick(&[0u64, 1, 2, 5, 1000]);
-        let mut diffs: Vec<U256> = (0..nd).map(|i| U256::from(base + i as u64)).collect();
-        if nd >= 2 && rng.chance(1, 4) {
-            diffs.swap(0, 1);
-        }
-        if nd >= 1 && rng.chance(1, 6) {
-            diffs[nd - 1] = U256::max_value();
-        }
-        let boundary = match rng.below(5) {
-            0 => U256::zero(),
-            1 => U256::max_value(),
-            2 => U256::from(base),
-            _ => U256::from(base + nd as u64 + rng.below(20)),
+        // three messages in ten as before (every numeric field at its boundaries: mostly refused by the first two
+        // guards); the others are aimed past them: last block on the main chain, start number not above it, few
+        // samples - then difficulties unsorted (swapped / equal neighbours), a boundary at / just below / just above the
+        // last difficulty, or a request that passes every guard
+        let mode = rng.below(10);
+        let (last_hash, start_hash, start_number, last_n, diffs, boundary) = if mode < 3 {
+            let last_hash = pick_hash(rng);
+            let start_hash = pick_hash(rng);
+            let start_number = *rng.pick(&[0u64, 0, 1, 2, tip - 1, tip, tip + 1, tip + 2, 1 << 32, u64::MAX - 1, u64::MAX]);
+            let last_n = *rng.pick(&[0u64, 1, 2, 5, tip, 499, 500, 501, 1 << 31, (1 << 63) - 1, 1 << 63, u64::MAX]);
+            let nd = *rng.pick(&[0usize, 0, 1, 2, 3, 999, 1000, 1001]);
+            let base = *rng.pick(&[0u64, 1, 2, 5, 1000]);
+            let mut diffs: Vec<U256> = (0..nd).map(|i| U256::from(base + i as u64)).collect();
+            if nd >= 2 && rng.chance(1, 4) {
+                diffs.swap(0, 1);
+            }
+            if nd >= 1 && rng.chance(1, 6) {
+                diffs[nd - 1] = U256::max_value();
+            }
+            let boundary = match rng.below(5) {
+                0 => U256::zero(),
+                1 => U256::max_value(),
+                2 => U256::from(base),
+                _ => U256::from(base + nd as u64 + rng.below(20)),
+            };
+            (last_hash, start_hash, start_number, last_n, diffs, boundary)
+        } else {
+            let li = if rng.chance(1, 3) { tip } else { rng.below(tip + 1) };
+            let last_hash = w.main[li as usize].clone();
+            let start_number = if rng.chance(1, 8) { li + 1 } else { rng.below(li + 1) };
+            let start_hash = if rng.chance(1, 2) { w.main[(start_number.min(tip)) as usize].clone() } else { pick_hash(rng) };
+            let last_n = *rng.pick(&[0u64, 1, 2, 5, tip]);
+            let nd = if mode < 7 { rng.range(2, 5) as usize } else { rng.below(4) as usize };
+            let base = *rng.pick(&[1u64, 2, 5, 1000, 1 << 40]);
+            let step = *rng.pick(&[1u64, 1, 3, 1000]);
+            let mut diffs: Vec<U256> = (0..nd).map(|i| U256::from(base + step * i as u64)).collect();
+            let mut boundary = U256::from(base + step * nd as u64 + rng.below(3));
+            match mode {
+                3 | 4 => {
+                    // not strictly increasing: equal neighbours (the `>=` of the code) or a swapped pair, anywhere
+                    let i = rng.below(nd as u64 - 1) as usize;
+                    if rng.chance(1, 2) {
+                        diffs[i + 1] = diffs[i].clone();
+                    } else {
+                        diffs.swap(i, i + 1);
+                    }
+                }
+                5 | 6 => {
+                    // the boundary at the last difficulty (refused: `>=`), one below (refused), one above (passes)
+                    let last = base + step * (nd as u64 - 1);
+                    boundary = U256::from(*rng.pick(&[last, last, last - 1, last + 1]));
+                }
+                _ => {}
+            }
+            (last_hash, start_hash, start_number, last_n, diffs, boundary)
         };
         v.push(msg(
             packed::GetLastStateProof::new_builder()
